@@ -711,7 +711,7 @@ def s7_functions(ctx):
             ctx.judge(r, "func", key, src)
             # handlers: class predicted from the regenerated return rule and the result's shape
             if handler and isinstance(r, unyt.unyt_array) and handler in rules:
-                rs = [x_ for x_ in rules[handler] if x_ != "other"]
+                rs = [x_ for x_ in rules[handler] if x_ in ("timesUnit", "byNdim", "alwaysArray", "alwaysQuantity")]
                 if uses_out and "alwaysArray" in rs:
                     rule = "alwaysArray"
                 elif len(rs) == 1:
@@ -731,6 +731,11 @@ def s7_functions(ctx):
                 ("expandDims", "0", "np.expand_dims(x, 0)"), ("squeezeAxis", "0", "x.squeeze(axis=0)")]
         for t, tsrc in [((), "()"), ((-1,), "-1"), ((1,), "1"), ((1,), "(1,)"), ((1, 1), "1, 1"), ((1, -1), "(1, -1)"), ((n,), str(n)), ((-1, 1), "(-1, 1)"), ((2, -1), "(2, -1)")]:
             vops.append(("reshape", L.ints_w(t), f"x.reshape({tsrc})"))
+        # the shape passed as a list: `unyt_quantity.reshape` compares its argument with `()`
+        for t in [(), (1,), (-1,), (1, 1), (n,)]:
+            vops.append(("reshapeList", L.ints_w(t), f"x.reshape({list(t)!r})"))
+            vops.append(("reshapeList", L.ints_w(t), f"np.reshape(x, {list(t)!r})"))
+        vops.append(("reshape", "()", "np.reshape(x, ())"))
         for k, arg, expr in vops:
             st, r = outcome(lambda: eval(expr, env))
             chk.case(("viewop", kind, shp, expr))
@@ -747,6 +752,7 @@ def s7_functions(ctx):
 
 WITNESSES = [
     ("C16_view_counterexample(reshape)", "r = unyt_array([1.0], 'm').reshape(())", "unyt_array", ()),
+    ("C16_view_counterexample(reshape list)", "r = unyt_quantity(3.0, 'm').reshape([])", "unyt_array", ()),
     ("C16_view_counterexample(repeat)", "r = unyt_quantity(3.0, 'm').repeat(2)", "unyt_quantity", (2,)),
     # behaviour the full-strength theorems now state (fixed defects): examples of C16.lean
     ("C16_getitem(example)", "r = unyt_quantity(3.0, 'm')[None]", "unyt_array", (1,)),
